@@ -4,6 +4,304 @@ From QV Require Import Base.Bytes File.XrefModel.
 From Coq Require Import Lia.
 Local Open Scope N_scope.
 
+(* ---- helpers: the chain flattened into one entry list; the state seen from one object number ---- *)
+Definition x3_flat (s : c3_section) : list (N * c3_xe) :=
+  if c3_is_table s then
+    filter (fun oe => negb (c3_is_free oe)) (c3_table s) ++ c3_stm s ++ filter c3_is_free (c3_table s)
+  else c3_table s ++ c3_stm s.
+
+Lemma x3_read_section_flat : forall max st s,
+  c3_read_section max st s = fold_left (c3_entry max) (x3_flat s) st.
+Proof.
+  intros. unfold c3_read_section, x3_flat. destruct (c3_is_table s); repeat rewrite fold_left_app; reflexivity.
+Qed.
+
+Lemma x3_chain_flat : forall max chain st,
+  fold_left (c3_read_section max) chain st = fold_left (c3_entry max) (flat_map x3_flat chain) st.
+Proof.
+  induction chain as [|a chain IH]; intros st; cbn [fold_left flat_map]; [reflexivity|].
+  rewrite fold_left_app, x3_read_section_flat. apply IH.
+Qed.
+
+Definition x3_ents (st : c3_state) (obj : N) : list (N * N * c3_xe) :=
+  filter (fun e : N * N * c3_xe => fst (fst e) =? obj) (c3_tbl st).
+
+Definition x3_step (obj : N) (acc : option (N * c3_xe)) (e : N * N * c3_xe) : option (N * c3_xe) :=
+  if fst (fst e) =? obj then
+    match acc with
+    | Some (g, _) => if g <? snd (fst e) then Some (snd (fst e), snd e) else acc
+    | None => Some (snd (fst e), snd e)
+    end
+  else acc.
+
+Lemma x3_best_filter : forall obj tbl acc,
+  fold_left (x3_step obj) tbl acc
+  = fold_left (x3_step obj) (filter (fun e : N * N * c3_xe => fst (fst e) =? obj) tbl) acc.
+Proof.
+  induction tbl as [|a t IH]; intros acc; cbn [fold_left filter]; [reflexivity|].
+  destruct (fst (fst a) =? obj) eqn:E.
+  - cbn [fold_left]. apply IH.
+  - assert (Hs : x3_step obj acc a = acc) by (unfold x3_step; rewrite E; reflexivity).
+    rewrite Hs. apply IH.
+Qed.
+
+Lemma x3_best_step : forall tbl obj, c3_best tbl obj = fold_left (x3_step obj) tbl None.
+Proof. reflexivity. Qed.
+
+Lemma x3_best_nil : forall st obj, x3_ents st obj = [] -> c3_best (c3_tbl st) obj = None.
+Proof.
+  intros st obj H. rewrite x3_best_step, x3_best_filter. unfold x3_ents in H. rewrite H. reflexivity.
+Qed.
+
+Lemma x3_best_one : forall st obj g e, x3_ents st obj = [(obj, g, e)] -> c3_best (c3_tbl st) obj = Some (g, e).
+Proof.
+  intros st obj g e H. rewrite x3_best_step, x3_best_filter. unfold x3_ents in H. rewrite H.
+  cbn [fold_left]. unfold x3_step. cbn [fst snd]. rewrite N.eqb_refl. reflexivity.
+Qed.
+
+Lemma x3_has_ents : forall st obj g,
+  c3_has st obj g = existsb (fun e : N * N * c3_xe => snd (fst e) =? g) (x3_ents st obj).
+Proof.
+  intros st obj g. unfold c3_has, x3_ents. induction (c3_tbl st) as [|a t IH]; cbn [existsb filter]; [reflexivity|].
+  destruct (fst (fst a) =? obj) eqn:E; cbn [existsb andb orb]; rewrite IH; reflexivity.
+Qed.
+
+Definition x3_clean (st : c3_state) (obj : N) : Prop := x3_ents st obj = [] /\ c3_is_deleted st obj = false.
+Definition x3_dead (st : c3_state) (obj : N) : Prop := x3_ents st obj = [] /\ c3_is_deleted st obj = true.
+
+(* entries for other objects do not touch what is known about obj *)
+Lemma x3_frame : forall max st oe obj, fst oe <> obj ->
+  x3_ents (c3_entry max st oe) obj = x3_ents st obj
+  /\ c3_is_deleted (c3_entry max st oe) obj = c3_is_deleted st obj.
+Proof.
+  intros max st [k e] obj Hne. cbn [fst] in Hne. unfold c3_entry. cbn [fst snd].
+  assert (Hko : (k =? obj) = false) by (apply N.eqb_neq; exact Hne).
+  assert (Hok : (obj =? k) = false) by (apply N.eqb_neq; intro Hx; apply Hne; symmetry; exact Hx).
+  destruct e as [g|off g|stm idx].
+  - unfold c3_insert_free. destruct (negb (c3_has st k g) && (k <=? max)); [|split; reflexivity].
+    split; [reflexivity|]. unfold c3_is_deleted. cbn [c3_deleted existsb]. rewrite Hok. reflexivity.
+  - unfold c3_insert_use.
+    destruct (negb ((0 <? k) && (k <=? max) && (g <? 65535))); [split; reflexivity|].
+    destruct (c3_is_deleted st k); [split; reflexivity|].
+    destruct (c3_has st k g); [split; reflexivity|].
+    unfold x3_ents, c3_is_deleted. cbn [c3_tbl c3_deleted]. rewrite filter_app. cbn [filter fst].
+    rewrite Hko, app_nil_r. split; reflexivity.
+  - unfold c3_insert_use.
+    destruct (negb ((0 <? k) && (k <=? max))); [split; reflexivity|].
+    destruct (c3_is_deleted st k); [split; reflexivity|].
+    destruct (stm =? k); [split; reflexivity|].
+    destruct (max <? stm); [split; reflexivity|].
+    destruct (c3_has st k 0); [split; reflexivity|].
+    unfold x3_ents, c3_is_deleted. cbn [c3_tbl c3_deleted]. rewrite filter_app. cbn [filter fst].
+    rewrite Hko, app_nil_r. split; reflexivity.
+Qed.
+
+(* deleted with no entry stays so *)
+Lemma x3_dead_entry : forall max st oe obj, x3_dead st obj -> x3_dead (c3_entry max st oe) obj.
+Proof.
+  intros max st oe obj [He Hd]. destruct (N.eq_dec (fst oe) obj) as [Heq|Hne].
+  - destruct oe as [k e]. cbn [fst] in Heq. subst k. unfold c3_entry. cbn [fst snd].
+    destruct e as [g|off g|stm idx].
+    + unfold c3_insert_free. destruct (negb (c3_has st obj g) && (obj <=? max)); [|split; assumption].
+      split; [exact He|]. unfold c3_is_deleted. cbn [c3_deleted existsb]. rewrite N.eqb_refl. reflexivity.
+    + unfold c3_insert_use. destruct (negb ((0 <? obj) && (obj <=? max) && (g <? 65535))); [split; assumption|].
+      rewrite Hd. split; assumption.
+    + unfold c3_insert_use. destruct (negb ((0 <? obj) && (obj <=? max))); [split; assumption|].
+      rewrite Hd. split; assumption.
+  - destruct (x3_frame max st oe obj Hne) as [F1 F2]. unfold x3_dead. rewrite F1, F2. split; assumption.
+Qed.
+
+Lemma x3_dead_fold : forall max L st obj, x3_dead st obj -> x3_dead (fold_left (c3_entry max) L st) obj.
+Proof.
+  induction L as [|a L IH]; intros st obj H; cbn [fold_left]; [exact H|].
+  apply IH. apply x3_dead_entry. exact H.
+Qed.
+
+(* a single entry of generation g refuses later entries that are compatible with it *)
+Definition x3_compat (obj g : N) (oe : N * c3_xe) : Prop :=
+  fst oe = obj ->
+  match snd oe with C3Free _ => True | C3Use _ g' => g' = g | C3Comp _ _ => g = 0 end.
+
+Lemma x3_fixed_entry : forall max st oe obj g e0,
+  x3_ents st obj = [(obj, g, e0)] -> x3_compat obj g oe ->
+  x3_ents (c3_entry max st oe) obj = [(obj, g, e0)].
+Proof.
+  intros max st oe obj g e0 He Hc. destruct (N.eq_dec (fst oe) obj) as [Heq|Hne].
+  - specialize (Hc Heq). destruct oe as [k e]. cbn [fst snd] in *. subst k. unfold c3_entry. cbn [fst snd].
+    assert (Hhas : c3_has st obj g = true).
+    { rewrite x3_has_ents, He. cbn [existsb fst snd]. rewrite N.eqb_refl. reflexivity. }
+    destruct e as [g'|off g'|stm idx].
+    + unfold c3_insert_free. destruct (negb (c3_has st obj g') && (obj <=? max)); exact He.
+    + subst g'. unfold c3_insert_use.
+      destruct (negb ((0 <? obj) && (obj <=? max) && (g <? 65535))); [exact He|].
+      destruct (c3_is_deleted st obj); [exact He|]. rewrite Hhas. exact He.
+    + subst g. unfold c3_insert_use.
+      destruct (negb ((0 <? obj) && (obj <=? max))); [exact He|].
+      destruct (c3_is_deleted st obj); [exact He|].
+      destruct (stm =? obj); [exact He|].
+      destruct (max <? stm); [exact He|]. rewrite Hhas. exact He.
+  - destruct (x3_frame max st oe obj Hne) as [F1 _]. rewrite F1. exact He.
+Qed.
+
+Lemma x3_fixed_fold : forall max obj g e0 L st,
+  x3_ents st obj = [(obj, g, e0)] -> Forall (x3_compat obj g) L ->
+  x3_ents (fold_left (c3_entry max) L st) obj = [(obj, g, e0)].
+Proof.
+  induction L as [|a L IH]; intros st He HF; cbn [fold_left]; [exact He|].
+  inversion HF as [|? ? Ha HL]; subst. apply IH; [|exact HL]. apply x3_fixed_entry; assumption.
+Qed.
+
+(* first entry for obj on a clean state *)
+Lemma x3_clean_has : forall st obj g, x3_clean st obj -> c3_has st obj g = false.
+Proof. intros st obj g [He _]. rewrite x3_has_ents, He. reflexivity. Qed.
+
+Lemma x3_clean_free : forall max st obj g, x3_clean st obj -> obj <= max ->
+  x3_dead (c3_entry max st (obj, C3Free g)) obj.
+Proof.
+  intros max st obj g Hc Hle. unfold c3_entry. cbn [fst snd]. unfold c3_insert_free.
+  rewrite (x3_clean_has st obj g Hc). apply N.leb_le in Hle. rewrite Hle. cbn [negb andb].
+  destruct Hc as [He Hd]. split; [exact He|].
+  unfold c3_is_deleted. cbn [c3_deleted existsb]. rewrite N.eqb_refl. reflexivity.
+Qed.
+
+Lemma x3_clean_use : forall max st obj off g, x3_clean st obj -> c3_entry_ok max (obj, C3Use off g) ->
+  x3_ents (c3_entry max st (obj, C3Use off g)) obj = [(obj, g, C3Use off g)].
+Proof.
+  intros max st obj off g Hc [Hle [Hpos Hg]]. cbn [fst snd] in *. unfold c3_entry. cbn [fst snd].
+  unfold c3_insert_use. rewrite (x3_clean_has st obj g Hc).
+  apply N.leb_le in Hle. apply N.ltb_lt in Hpos. apply N.ltb_lt in Hg. rewrite Hle, Hpos, Hg. cbn [negb andb].
+  destruct Hc as [He Hd]. rewrite Hd. unfold x3_ents. cbn [c3_tbl]. rewrite filter_app. cbn [filter fst].
+  rewrite N.eqb_refl. unfold x3_ents in He. rewrite He. reflexivity.
+Qed.
+
+Lemma x3_clean_comp : forall max st obj stm idx, x3_clean st obj -> c3_entry_ok max (obj, C3Comp stm idx) ->
+  x3_ents (c3_entry max st (obj, C3Comp stm idx)) obj = [(obj, 0, C3Comp stm idx)].
+Proof.
+  intros max st obj stm idx Hc [Hle [Hpos [Hne Hs]]]. cbn [fst snd] in *. unfold c3_entry. cbn [fst snd].
+  unfold c3_insert_use. rewrite (x3_clean_has st obj 0 Hc).
+  apply N.leb_le in Hle. apply N.ltb_lt in Hpos. apply N.eqb_neq in Hne.
+  assert (Hs' : (max <? stm) = false) by (apply N.ltb_ge; exact Hs).
+  rewrite Hle, Hpos, Hne, Hs'. cbn [negb andb].
+  destruct Hc as [He Hd]. rewrite Hd. unfold x3_ents. cbn [c3_tbl]. rewrite filter_app. cbn [filter fst].
+  rewrite N.eqb_refl. unfold x3_ents in He. rewrite He. reflexivity.
+Qed.
+
+Definition x3_view (r : option c3_xe) : option (N * c3_xe) :=
+  match r with
+  | Some (C3Use o g) => Some (g, C3Use o g)
+  | Some (C3Comp s i) => Some (0, C3Comp s i)
+  | _ => None
+  end.
+Definition x3_gen (e : c3_xe) : N := match e with C3Use _ g => g | _ => 0 end.
+
+(* qpdf on one flat entry list: the first entry for obj decides *)
+Lemma x3_flat_view : forall max obj L st,
+  x3_clean st obj -> Forall (c3_entry_ok max) L ->
+  (forall e, In (obj, e) L -> c3_is_free (obj, e) = false -> Forall (x3_compat obj (x3_gen e)) L) ->
+  c3_best (c3_tbl (fold_left (c3_entry max) L st)) obj = x3_view (c3_find L obj).
+Proof.
+  induction L as [|[k e] L IH]; intros st Hc Hok Hcomp.
+  - cbn [fold_left c3_find x3_view]. apply x3_best_nil. apply Hc.
+  - cbn [fold_left c3_find]. inversion Hok as [|? ? Hhd Htl]; subst.
+    destruct (N.eqb_spec k obj) as [Heq|Hne].
+    + subst k. destruct e as [g|off g|stm idx]; cbn [x3_view].
+      * apply x3_best_nil. apply (x3_dead_fold max L _ obj). apply x3_clean_free; [exact Hc|]. apply Hhd.
+      * apply x3_best_one. apply x3_fixed_fold with (g := g).
+        -- apply x3_clean_use; assumption.
+        -- specialize (Hcomp (C3Use off g) (or_introl eq_refl) eq_refl).
+           inversion Hcomp; assumption.
+      * apply x3_best_one. apply x3_fixed_fold with (g := 0).
+        -- apply x3_clean_comp; assumption.
+        -- specialize (Hcomp (C3Comp stm idx) (or_introl eq_refl) eq_refl).
+           inversion Hcomp; assumption.
+    + destruct (x3_frame max st (k, e) obj Hne) as [F1 F2]. apply IH.
+      * unfold x3_clean. rewrite F1, F2. exact Hc.
+      * exact Htl.
+      * intros e' Hin Hf. specialize (Hcomp e' (or_intror Hin) Hf). inversion Hcomp; assumption.
+Qed.
+
+Lemma x3_clean_free_fold : forall max obj g L st,
+  x3_clean st obj -> c3_find L obj = Some (C3Free g) -> obj <= max ->
+  x3_dead (fold_left (c3_entry max) L st) obj.
+Proof.
+  induction L as [|[k e] L IH]; intros st Hc Hf Hle; cbn [c3_find] in Hf; [discriminate|].
+  cbn [fold_left]. destruct (N.eqb_spec k obj) as [Heq|Hne].
+  - subst k. injection Hf as Hf. subst e. apply x3_dead_fold. apply x3_clean_free; assumption.
+  - destruct (x3_frame max st (k, e) obj Hne) as [F1 F2]. apply IH; [|exact Hf|exact Hle].
+    unfold x3_clean. rewrite F1, F2. exact Hc.
+Qed.
+
+(* ---- the specification on the flat list ---- *)
+Lemma x3_find_app : forall A B obj,
+  c3_find (A ++ B) obj = match c3_find A obj with Some e => Some e | None => c3_find B obj end.
+Proof.
+  induction A as [|[k e] A IH]; intros B obj; cbn [app c3_find]; [reflexivity|].
+  destruct (k =? obj); [reflexivity|apply IH].
+Qed.
+
+Lemma x3_find_notin : forall l obj, ~ In obj (map fst l) -> c3_find l obj = None.
+Proof.
+  induction l as [|[k e] l IH]; intros obj Hn; cbn [c3_find]; [reflexivity|].
+  cbn [map fst In] in Hn. destruct (N.eqb_spec k obj) as [Heq|Hne].
+  - exfalso. apply Hn. left. exact Heq.
+  - apply IH. intro Hx. apply Hn. right. exact Hx.
+Qed.
+
+Lemma x3_find_filter : forall p l obj, NoDup (map fst l) ->
+  c3_find (filter p l) obj
+  = match c3_find l obj with Some e => if p (obj, e) then Some e else None | None => None end.
+Proof.
+  induction l as [|[k e] l IH]; intros obj Hnd; cbn [filter c3_find]; [reflexivity|].
+  cbn [map fst] in Hnd. inversion Hnd as [|? ? Hnotin Hnd']; subst.
+  destruct (N.eqb_spec k obj) as [Heq|Hne].
+  - subst k. destruct (p (obj, e)).
+    + cbn [c3_find]. rewrite N.eqb_refl. reflexivity.
+    + rewrite IH by exact Hnd'. rewrite (x3_find_notin l obj Hnotin). reflexivity.
+  - destruct (p (k, e)).
+    + cbn [c3_find]. apply N.eqb_neq in Hne. rewrite Hne. apply IH. exact Hnd'.
+    + apply IH. exact Hnd'.
+Qed.
+
+Lemma x3_spec_section : forall s older obj,
+  NoDup (map fst (c3_table s)) -> (c3_is_table s = false -> c3_stm s = []) ->
+  c3_spec_view (s :: older) obj
+  = match c3_find (x3_flat s) obj with Some e => x3_view (Some e) | None => c3_spec_view older obj end.
+Proof.
+  intros s older obj Hnd Hs. cbn [c3_spec_view]. unfold x3_flat. destruct (c3_is_table s).
+  - rewrite !x3_find_app, !x3_find_filter by exact Hnd.
+    destruct (c3_find (c3_table s) obj) as [[g|off g|stm idx]|]; unfold c3_is_free; cbn [snd negb x3_view];
+      destruct (c3_find (c3_stm s) obj) as [[g2|off2 g2|stm2 idx2]|]; reflexivity.
+  - rewrite (Hs eq_refl), app_nil_r. cbn [c3_find].
+    destruct (c3_find (c3_table s) obj) as [[g|off g|stm idx]|]; reflexivity.
+Qed.
+
+Lemma x3_spec_flat : forall max chain obj,
+  Forall (c3_section_ok max) chain -> (forall s, In s chain -> c3_is_table s = false -> c3_stm s = []) ->
+  c3_spec_view chain obj = x3_view (c3_find (flat_map x3_flat chain) obj).
+Proof.
+  induction chain as [|s chain IH]; intros obj Hok Hs; [reflexivity|].
+  inversion Hok as [|? ? Hhd Htl]; subst. cbn [flat_map]. rewrite x3_find_app.
+  rewrite x3_spec_section; [|apply Hhd|apply Hs; left; reflexivity].
+  destruct (c3_find (x3_flat s) obj); [reflexivity|].
+  apply IH; [exact Htl|]. intros s' Hin. apply Hs. right. exact Hin.
+Qed.
+
+Lemma x3_flat_in : forall s oe, In oe (x3_flat s) -> In oe (c3_table s ++ c3_stm s).
+Proof.
+  intros s oe. unfold x3_flat. destruct (c3_is_table s); [|tauto].
+  rewrite !in_app_iff, !filter_In. tauto.
+Qed.
+
+Lemma x3_flat_chain_in : forall chain oe, In oe (flat_map x3_flat chain) ->
+  exists s, In s chain /\ In oe (c3_table s ++ c3_stm s).
+Proof.
+  intros chain oe H. apply in_flat_map in H. destruct H as [s [Hs Hin]].
+  exists s. split; [exact Hs|]. apply x3_flat_in. exact Hin.
+Qed.
+
+Lemma x3_empty_clean : forall obj, x3_clean {| c3_tbl := []; c3_deleted := [] |} obj.
+Proof. intros obj. split; reflexivity. Qed.
+
 (* For every well-formed chain without reuse of an object number at another generation, qpdf's table equals the
    ISO lookup for every object: the newest section that mentions an object wins; a free entry there makes it read
    as null unless that same section's /XRefStm holds it (hidden object of a hybrid-reference file); objects
@@ -14,7 +312,22 @@ Lemma xref_chain_newest_wins_lemma : forall max_id chain obj,
   (forall s stm idx, In s chain -> In (obj, C3Comp stm idx) (c3_table s ++ c3_stm s) ->
      forall s' o' g', In s' chain -> In (obj, C3Use o' g') (c3_table s' ++ c3_stm s') -> g' = 0) ->
   c3_qpdf_view max_id chain obj = c3_spec_view chain obj.
-Proof. Abort.
+Proof.
+  intros max_id chain obj Hok Hsg Hstm Hcomp.
+  unfold c3_qpdf_view. rewrite x3_chain_flat, (x3_spec_flat max_id chain obj Hok Hstm).
+  apply x3_flat_view.
+  - apply x3_empty_clean.
+  - apply Forall_forall. intros oe Hin. apply x3_flat_chain_in in Hin. destruct Hin as [s [Hs Hin]].
+    rewrite Forall_forall in Hok. destruct (Hok s Hs) as [Ht [Hst _]].
+    rewrite Forall_forall in Ht, Hst. apply in_app_or in Hin. destruct Hin as [Hin|Hin]; auto.
+  - intros e Hin Hfree. apply x3_flat_chain_in in Hin. destruct Hin as [s [Hs Hin]].
+    apply Forall_forall. intros [k e'] Hin' Hk. cbn [fst snd] in *. subst k.
+    apply x3_flat_chain_in in Hin'. destruct Hin' as [s' [Hs' Hin']].
+    destruct e as [g|off g|stm idx]; [discriminate Hfree| |]; destruct e' as [g'|off' g'|stm' idx']; cbn [x3_gen]; auto.
+    + exact (Hsg s' s obj off' g' off g Hs' Hs Hin' Hin).
+    + exact (Hcomp s' stm' idx' Hs' Hin' s off g Hs Hin).
+    + exact (Hcomp s stm idx Hs Hin s' off' g' Hs' Hin').
+Qed.
 
 (* The hybrid layout of ISO 32000-1 7.5.8.4 (hidden objects listed FREE in the table of the very section whose
    /XRefStm holds them) is read as the standard says. *)
@@ -22,7 +335,7 @@ Lemma hybrid_hidden_objects_read_lemma :
   let chain := [ {| c3_is_table := true; c3_table := [(0, C3Free 65535); (1, C3Use 15 0); (2, C3Free 65535)];
                    c3_stm := [(2, C3Comp 1 0)] |} ] in
   c3_qpdf_view 5 chain 2 = Some (0, C3Comp 1 0) /\ c3_qpdf_view 5 chain 2 = c3_spec_view chain 2.
-Proof. Abort.
+Proof. vm_compute. split; reflexivity. Qed.
 
 (* free in the newest section that mentions the object (and not hidden in its /XRefStm): it reads as null
    whatever older sections say *)
@@ -30,4 +343,13 @@ Lemma free_reads_null_lemma : forall max_id s older obj g,
   c3_section_ok max_id s -> c3_find (c3_table s) obj = Some (C3Free g) -> c3_find (c3_stm s) obj = None ->
   obj <= max_id ->
   c3_qpdf_view max_id (s :: older) obj = None.
-Proof. Abort.
+Proof.
+  intros max_id s older obj g Hok Ht Hst Hle.
+  unfold c3_qpdf_view. rewrite x3_chain_flat. cbn [flat_map]. rewrite fold_left_app.
+  apply x3_best_nil. apply (x3_dead_fold max_id (flat_map x3_flat older) _ obj).
+  destruct Hok as [_ [_ [Hnd _]]].
+  apply x3_clean_free_fold with (g := g); [apply x3_empty_clean| |exact Hle].
+  unfold x3_flat. destruct (c3_is_table s).
+  - rewrite !x3_find_app, !x3_find_filter by exact Hnd. rewrite Ht, Hst. reflexivity.
+  - rewrite x3_find_app, Ht. reflexivity.
+Qed.
